@@ -18,6 +18,7 @@
 //	   P re-POST the configuration; x<c> Close
 //	L (P{ cfg* } | a | x<id> | v<id>:<regexhex> | q)*   handler/listener history with goroutine accounting
 //	I cfg* | u:<urlhex> rs:<n> len:<n> b:<seed> ch:<0|1>   proxy on a shaped listener, raw client
+//	K cfg* | q:<urlhex>:<rs>:<len>:<seed>+   several requests on ONE keep-alive connection through the proxy
 //	R cfg* | n:<bytes> c:<conns>     rate: n body bytes through a "0-" throttle; elapsed lower bound
 //
 // OUT tokens are described next to the code that emits them.
@@ -594,6 +595,142 @@ func runIntegration(in []string) (out []string) {
 	return out
 }
 
+
+// ------------------------------------------------------------------ K
+
+// teeConn records every byte read from the connection.
+type teeConn struct {
+	net.Conn
+	buf []byte
+}
+
+func (t *teeConn) Read(b []byte) (int, error) {
+	n, err := t.Conn.Read(b)
+	t.buf = append(t.buf, b[:n]...)
+	return n, err
+}
+
+// runKeepAlive: K cfg* | q:<urlhex>:<rs>:<len>:<seed> ...
+// One keep-alive client connection to a martian proxy on a shaped listener;
+// the requests are sent one after the other on that connection.  OUT: st rx,
+// then per request  m<bits> hs<status> hl<n> ok|cut el<us> B<served hex> <delivered hex>
+// (or "skip" once the connection has been closed), then the final action counts.
+func runKeepAlive(in []string) (out []string) {
+	defer func() {
+		if r := recover(); r != nil {
+			out = append(out, "PANIC")
+		}
+	}()
+	cfgToks, reqs := splitBar(in)
+	body, regs := buildJSON(cfgToks)
+	l, err := net.Listen("tcp", "127.0.0.1:0")
+	if err != nil {
+		return []string{"listen-failed"}
+	}
+	tsl := trafficshape.NewListener(l)
+	h := trafficshape.NewHandler(tsl)
+	out = append(out, fmt.Sprintf("st%d", post(h, body)), rxBits(regs))
+	origin := &multiOrigin{bodies: map[string][]byte{}}
+	px := martian.NewProxy()
+	px.SetRoundTripper(origin)
+	px.SetTimeout(5 * time.Second)
+	go px.Serve(tsl)
+	defer func() {
+		px.Close()
+		tsl.Close()
+	}()
+	raw, err := net.Dial("tcp", l.Addr().String())
+	if err != nil {
+		return append(out, "dial-failed")
+	}
+	defer raw.Close()
+	tc := &teeConn{Conn: raw}
+	br := bufio.NewReader(tc)
+	dead := false
+	for k, q := range reqs {
+		p := strings.Split(q, ":")
+		if len(p) != 5 || p[0] != "q" {
+			out = append(out, "badtok")
+			continue
+		}
+		if dead {
+			out = append(out, "skip")
+			continue
+		}
+		url := string(hx.MustUnHex(p[1]))
+		rs, _ := strconv.Atoi(p[2])
+		n, _ := strconv.Atoi(p[3])
+		seed, _ := strconv.ParseUint(p[4], 10, 64)
+		total := bodyBytes(seed, n)
+		origin.mu.Lock()
+		origin.bodies[fmt.Sprintf("%s#%d", url, k)] = total
+		origin.cur = total
+		origin.mu.Unlock()
+		m := "m"
+		for _, r := range regs {
+			if ok, _ := regexp.MatchString(r, url); ok {
+				m += "1"
+			} else {
+				m += "0"
+			}
+		}
+		req, _ := http.NewRequest("GET", url, nil)
+		if rs >= 0 {
+			req.Header.Set("Range", fmt.Sprintf("bytes=%d-", rs))
+		}
+		mark := len(tc.buf)
+		t0 := time.Now()
+		if err := req.WriteProxy(raw); err != nil {
+			out = append(out, "skip")
+			dead = true
+			continue
+		}
+		raw.SetReadDeadline(time.Now().Add(15 * time.Second))
+		state := "ok"
+		status := 0
+		res, err := http.ReadResponse(br, req)
+		if err != nil {
+			state = "cut"
+		} else {
+			status = res.StatusCode
+			if _, err := io.ReadAll(res.Body); err != nil {
+				state = "cut"
+			}
+			res.Body.Close()
+		}
+		el := time.Since(t0)
+		got := append([]byte(nil), tc.buf[mark:]...)
+		if state == "cut" {
+			dead = true
+		}
+		hl := bytes.Index(got, []byte("\r\n\r\n"))
+		if hl >= 0 {
+			hl += 4
+		}
+		served := total
+		if rs >= 0 && rs < n {
+			served = total[rs:]
+		}
+		out = append(out, m, fmt.Sprintf("hs%d", status), fmt.Sprintf("hl%d", hl), state, fmt.Sprintf("el%d", us(el)),
+			"B"+hx.Hex(served), hx.Hex(got))
+	}
+	out = append(out, dumpActions(tsl))
+	return out
+}
+
+type multiOrigin struct {
+	mu     sync.Mutex
+	bodies map[string][]byte
+	cur    []byte
+}
+
+func (o *multiOrigin) RoundTrip(req *http.Request) (*http.Response, error) {
+	o.mu.Lock()
+	total := o.cur
+	o.mu.Unlock()
+	return (&originRT{total: total}).RoundTrip(req)
+}
+
 // ------------------------------------------------------------------ R
 
 // runRate pushes n body bytes through the shaped Write path under a throttle
@@ -662,6 +799,8 @@ func runCase(in []string) []string {
 		return runIntegration(in[1:])
 	case "R":
 		return runRate(in[1:])
+	case "K":
+		return runKeepAlive(in[1:])
 	}
 	return []string{"badkind"}
 }
